@@ -49,8 +49,15 @@ def handle (I : Interner) (line : Json) : Json :=
   | "doc" =>
     match obj? impl "tree" with
     | none =>
-      -- the builder refused the arguments: nothing was emitted, the property does not speak
-      Json.mkObj [("model", Json.mkObj [("valid", Json.null)]), ("path", "doc/refused"), ("spec_model", true), ("spec_impl", true)]
+      match str? impl "emit_error" with
+      | some e =>
+        -- a message object without a string form: nothing that could validate was emitted
+        let strict := boolD impl "strict"
+        Json.mkObj [("model", Json.mkObj [("valid", false)]), ("path", "doc/unserialisable"), ("spec_model", !strict),
+          ("spec_impl", !strict), ("why", Json.str ("the created message cannot be serialised: " ++ e))]
+      | none =>
+        -- the builder refused the arguments: nothing was emitted, the property does not speak
+        Json.mkObj [("model", Json.mkObj [("valid", Json.null)]), ("path", "doc/refused"), ("spec_model", true), ("spec_impl", true)]
     | some tj =>
       let t := parseNode I tj
       let res := validate S t
